@@ -254,7 +254,10 @@ func (w *WaitGroup) Wait() {
 	w.real.Wait()
 }
 
-// Once is a scheduler-visible once.
+// Once is a scheduler-visible once. In pass-through mode it is exactly the
+// real sync.Once (no field of the shim is touched, so the race detector sees
+// only the code under test); under the scheduler it is modelled, and a Once
+// completed there is completed for the real one too.
 type Once struct {
 	real    gosync.Once
 	done    bool
@@ -264,14 +267,7 @@ type Once struct {
 func (o *Once) Do(f func()) {
 	s := vsched.Cur()
 	if s == nil {
-		if o.done {
-			return
-		}
-
-		o.real.Do(func() {
-			f()
-			o.done = true
-		})
+		o.real.Do(f)
 
 		return
 	}
@@ -293,9 +289,19 @@ func (o *Once) Do(f func()) {
 	defer func() {
 		o.done = true
 		o.running = false
+
+		o.real.Do(func() {})
 	}()
 
-	f()
+	ran := false
+
+	o.real.Do(func() {
+		ran = true
+
+		f()
+	})
+
+	_ = ran
 }
 
 // OnceFunc, OnceValue and OnceValues keep their standard meaning.
